@@ -4,6 +4,7 @@ import (
 	"crypto/sha256"
 	"encoding/binary"
 	"encoding/hex"
+	"fmt"
 	"sort"
 )
 
@@ -66,3 +67,11 @@ func (x *hasher) add(b []byte) {
 func (x *hasher) String() string { return hex.EncodeToString(x.h[:8]) }
 
 func sortStrings(s []string) { sort.Strings(s) }
+
+// shortAddr abbreviates an address for messages (addresses can be any text, also shorter than 8 bytes).
+func shortAddr(a string) string {
+	if len(a) > 8 {
+		a = a[:8]
+	}
+	return fmt.Sprintf("%q", a)
+}
